@@ -439,6 +439,8 @@ where
                 let start: usize = bit_start + thread_index * chunk_size;
 
                 scope.spawn(move || {
+                    #[cfg(feature = "verif-hooks")]
+                    crate::bdd_arithmetic::verif_hooks::chunk_start(thread_index);
                     let (mut tmp_ggsw, scratch_1) = scratch_thread.take_ggsw(ggsw_infos);
                     let (mut tmp_lwe, scratch_2) = scratch_1.take_lwe(bits);
                     for (local_bit, dst) in res_bits_chunk.iter_mut().enumerate() {
